@@ -89,7 +89,12 @@ def body_factory(tier, seed):
             if leaked:
                 rep.violation("C09:leak:%s" % type(e).__name__, "the text of %s is on the wire: %s" % (type(e).__name__, leaked[0][:160]), replay)
             if res["reply"] is not None and support_ok:
-                terms.append("mkN V16 (Some HRaiseOther) (JStr \"a-id\") \"Heartbeat\" (JObj []) false false %s" % N.cnobs(res))
+                # the wording of the InternalError description is not an observable of the property (the leak
+                # search above is): canonicalise it before the comparison with the model
+                canon = dict(res)
+                if oc[0] == "ocpp" and oc[1][0] == "InternalError":
+                    canon["outcome"] = ("ocpp", ("InternalError", "An unexpected error occurred.", {}), 0)
+                terms.append("mkN V16 (Some HRaiseOther) (JStr \"a-id\") \"Heartbeat\" (JObj []) false false %s" % N.cnobs(canon))
                 meta.append(replay)
         # codes: every defined code maps to its class; undefined ones are unknown
         g = GH.HGen(tier, seed)
